@@ -116,7 +116,7 @@ ASSUMPTIONS = [
 # only classes fixed by the enumeration itself (outcome classes such as refusals depend on the tree under test)
 REQUIRED_CLASSES = ['pos:first', 'pos:interior', 'pos:last', 'len:1', 'len:2', 'len:3', 'len:all', 'pairs',
                     'sensors:acc', 'sensors:mag', 'sensors:gyr', 'sensors:acc+mag', 'sensors:acc+mag+gyr', 'sensors:acc+gyr',
-                    'entry:batch', 'entry:stream', 'outcome:completed', 'recovery:judged']
+                    'entry:batch', 'entry:stream', 'entry:stream-dt', 'entry:stream-dt-vs-configured', 'outcome:completed', 'recovery:judged']
 
 S_BASE_RUN = 'fault-free base run completes'
 S_BASE_ROWS = 'fault-free base run: every row is a finite unit quaternion'
@@ -141,6 +141,12 @@ class Spec:
     pass
 
 
+def _dtm(dtm):
+    """Entry 'stream-dt': the object is CONFIGURED for another sampling rate (37 Hz) and every call is given the record's own step through
+    the dt argument of the update method -> (constructor keywords, call keywords)."""
+    return ({'frequency': 37.0}, {'dt': DT}) if dtm else ({}, {})
+
+
 def build(name):
     """Adapters around the real classes.  Magnetic references are explicit everywhere (the defaults come from a WMM
     evaluated at import time); reference vectors are read back from an instance where the class exposes them."""
@@ -155,50 +161,57 @@ def build(name):
     only_q = lambda Q: (np.asarray(Q), None)
     if filt == 'Madgwick':
         s.batch = lambda g, a, m, q0: only_q(F.Madgwick(gyr=g, acc=a, mag=m).Q if marg else F.Madgwick(gyr=g, acc=a).Q)
-        def new():
-            inst = F.Madgwick(gain=0.041) if marg else F.Madgwick()     # the data-less default gain is the IMU one; batch MARG uses 0.041
-            return (lambda q, g, a, m: inst.updateMARG(q, g, a, m)) if marg else (lambda q, g, a, m: inst.updateIMU(q, g, a))
+        def new(dtm=False):
+            fk, dk = _dtm(dtm)
+            inst = F.Madgwick(gain=0.041, **fk) if marg else F.Madgwick(**fk)     # the data-less default gain is the IMU one; batch MARG uses 0.041
+            return (lambda q, g, a, m: inst.updateMARG(q, g, a, m, **dk)) if marg else (lambda q, g, a, m: inst.updateIMU(q, g, a, **dk))
     elif filt == 'Mahony':
         if marg:
             s.m_ref = np.array([0.0, c, -sn])      # Mahony-MARG aligns the horizontal field with +y (its am2q start is ENU)
         s.batch = lambda g, a, m, q0: only_q(F.Mahony(gyr=g, acc=a, mag=m).Q if marg else F.Mahony(gyr=g, acc=a).Q)
-        def new():
-            inst = F.Mahony()
-            return (lambda q, g, a, m: inst.updateMARG(q, g, a, m)) if marg else (lambda q, g, a, m: inst.updateIMU(q, g, a))
+        def new(dtm=False):
+            fk, dk = _dtm(dtm)
+            inst = F.Mahony(**fk)
+            return (lambda q, g, a, m: inst.updateMARG(q, g, a, m, **dk)) if marg else (lambda q, g, a, m: inst.updateIMU(q, g, a, **dk))
     elif filt == 'EKF':
         probe = F.EKF(magnetic_ref=DIP, frame=frame)
         s.g_ref, s.m_ref = np.array(probe.a_ref, float), np.array(probe.m_ref, float)
         s.batch = lambda g, a, m, q0: only_q(F.EKF(gyr=g, acc=a, mag=m, magnetic_ref=DIP, frame=frame, **kw0(q0)).Q if marg
                                              else F.EKF(gyr=g, acc=a, magnetic_ref=DIP, frame=frame, **kw0(q0)).Q)
-        def new():
-            inst = F.EKF(magnetic_ref=DIP, frame=frame)
-            return (lambda q, g, a, m: inst.update(q, g, a, m)) if marg else (lambda q, g, a, m: inst.update(q, g, a))
+        def new(dtm=False):
+            fk, dk = _dtm(dtm)
+            inst = F.EKF(magnetic_ref=DIP, frame=frame, **fk)
+            return (lambda q, g, a, m: inst.update(q, g, a, m, **dk)) if marg else (lambda q, g, a, m: inst.update(q, g, a, **dk))
     elif filt == 'UKF':
         s.batch = lambda g, a, m, q0: only_q(F.UKF(gyr=g, acc=a).Q)
-        def new():
-            inst = F.UKF()
-            return lambda q, g, a, m: inst.update(q, g, a)
+        def new(dtm=False):
+            fk, dk = _dtm(dtm)
+            inst = F.UKF(**fk)
+            return lambda q, g, a, m: inst.update(q, g, a, **dk)
     elif filt == 'AQUA':
         akw = {'adaptive': True} if name.endswith('-adaptive') else {}
         s.batch = lambda g, a, m, q0: only_q(F.AQUA(acc=a, mag=m, gyr=g, **akw).Q if marg else F.AQUA(acc=a, gyr=g, **akw).Q)
-        def new():
-            inst = F.AQUA(**akw)
-            return (lambda q, g, a, m: inst.updateMARG(q, g, a, m)) if marg else (lambda q, g, a, m: inst.updateIMU(q, g, a))
+        def new(dtm=False):
+            fk, dk = _dtm(dtm)
+            inst = F.AQUA(**akw, **fk)
+            return (lambda q, g, a, m: inst.updateMARG(q, g, a, m, **dk)) if marg else (lambda q, g, a, m: inst.updateIMU(q, g, a, **dk))
     elif filt == 'Fourati':
         probe = F.Fourati(magnetic_dip=DIP)
         s.g_ref, s.m_ref = np.array(np.asarray(probe.g_q)[1:], float), np.array(np.asarray(probe.m_q)[1:], float)
         s.batch = lambda g, a, m, q0: only_q(F.Fourati(gyr=g, acc=a, mag=m, magnetic_dip=DIP).Q)
-        def new():
-            inst = F.Fourati(magnetic_dip=DIP)
-            return lambda q, g, a, m: inst.update(q, g, a, m)
+        def new(dtm=False):
+            fk, dk = _dtm(dtm)
+            inst = F.Fourati(magnetic_dip=DIP, **fk)
+            return lambda q, g, a, m: inst.update(q, g, a, m, **dk)
     elif filt == 'ROLEQ':
         probe = F.ROLEQ(magnetic_ref=DIP, frame=frame)
         s.g_ref, s.m_ref = np.array(probe.a_ref, float), np.array(probe.m_ref, float)
         wkw = {'weights': np.array([1.0, 0.0])} if name.endswith('-w10') else ({'weights': np.array([0.0, 1.0])} if name.endswith('-w01') else {})
         s.batch = lambda g, a, m, q0: only_q(F.ROLEQ(gyr=g, acc=a, mag=m, magnetic_ref=DIP, frame=frame, **wkw, **kw0(q0)).Q)
-        def new():
-            inst = F.ROLEQ(magnetic_ref=DIP, frame=frame, **wkw)
-            return lambda q, g, a, m: inst.update(q, g, a, m)
+        def new(dtm=False):
+            fk, dk = _dtm(dtm)
+            inst = F.ROLEQ(magnetic_ref=DIP, frame=frame, **wkw, **fk)
+            return lambda q, g, a, m: inst.update(q, g, a, m, **dk)
     elif filt == 'FKF':
         s.batch = lambda g, a, m, q0: only_q(F.FKF(gyr=g, acc=a, mag=m).Q)
         new = None
@@ -248,7 +261,7 @@ def _scalars(inst):
     return {k: v for k, v in vars(inst).items() if isinstance(v, (int, float, str, bool)) or v is None}
 
 
-def run_stream(spec, q_init, g, a, m, faulted):
+def run_stream(spec, q_init, g, a, m, faulted, dtm=False):
     """One update call per row, starting from q_init, on a fresh data-less instance.
 
     A ValueError on a faulted row is a refusal of that sample: the previous estimate is carried.  Returns
@@ -256,7 +269,7 @@ def run_stream(spec, q_init, g, a, m, faulted):
     A non-finite or mis-shaped row ends the run (the rows after it stay NaN and are reported by the caller)."""
     np.random.seed(0)
     try:
-        step = spec.new_stream()
+        step = spec.new_stream(dtm)
     except Exception as ex:
         return ('error', -1, f'{type(ex).__name__}: {ex}'[:240])
     inst = _instance_of(step)
@@ -331,7 +344,7 @@ def base_run(spec, entry, att):
     if rb[0] != 'done' or not rf.well_formed(rb[1], N) or not np.all(np.isfinite(rb[1][0])):
         return g, a, m, Qt, q0, ('error', 'no initial estimate: the batch run on the clean record failed: ' + str(rb[1])[:160]), None, None, None
     q_init = rb[1][0].copy()
-    rs = run_stream(spec, q_init, g, a, m, ())
+    rs = run_stream(spec, q_init, g, a, m, (), dtm=(entry == 'stream-dt'))
     spec.base_params = (spec.params_before, spec.params_after)
     if rs[0] != 'done':
         return g, a, m, Qt, q0, ('error', f'row {rs[1]}: {rs[2]}'), None, None, q_init
@@ -408,7 +421,7 @@ def evaluate(ctx, spec, entry, att, fault, key, g, a, m, q0, Qb, base_unit, q_in
         Q, extra = res[1], res[2]
         refused = []
     else:
-        res = run_stream(spec, q_init, gf, af, mf, set(rows))
+        res = run_stream(spec, q_init, gf, af, mf, set(rows), dtm=(entry == 'stream-dt'))
         # a dropout must not leave the filter's own settings (gains, rates, flags) different from what a clean record leaves
         b0, b1 = getattr(spec, 'base_params', ({}, None))
         f0, f1 = spec.params_before, spec.params_after
@@ -430,6 +443,16 @@ def evaluate(ctx, spec, entry, att, fault, key, g, a, m, q0, Qb, base_unit, q_in
         Q, refused = res[1], res[2]
         if refused:
             ctx.cls('outcome:refused-sample(stream)')
+        if entry == 'stream-dt':
+            # the same fault history through an object CONFIGURED for the record's step (no dt argument): the two runs are the same run, on
+            # the faulted rows too (a dropout branch that forgets the caller's dt integrates that sample over another step)
+            res_c = run_stream(spec, q_init, gf, af, mf, set(rows), dtm=False)
+            if res_c[0] == 'done' and rf.well_formed(Q, N):
+                same = list(res_c[2]) == list(refused) and np.array_equal(np.isfinite(Q), np.isfinite(res_c[1])) and \
+                    float(np.nanmax(np.abs(np.nan_to_num(Q) - np.nan_to_num(res_c[1])))) <= 1e-12
+                ctx.expect(same, site(spec, 'a fault history gives the same estimates whether the step is configured on the object or given to every call as dt'), key,
+                           {'max difference': float(np.nanmax(np.abs(np.nan_to_num(Q) - np.nan_to_num(res_c[1])))), 'faulted_rows': rows[:8]}, 'identical runs', 1e-12)
+            ctx.cls('entry:stream-dt-vs-configured')
     ctx.cls('outcome:completed')
     if not rf.well_formed(Q, N):
         ctx.fail(site(spec, S_SHAPE), key, {'type': type(Q).__name__, 'shape': list(getattr(Q, 'shape', ())), 'dtype': str(getattr(Q, 'dtype', ''))}, [N, 4])
@@ -497,7 +520,7 @@ def run(ctx):
     jobs = []
     for name, cfg in CONFIGS.items():
         arch, has_stream = cfg[1], cfg[3]
-        for entry in (('batch', 'stream') if has_stream else ('batch',)):
+        for entry in (('batch', 'stream', 'stream-dt') if has_stream else ('batch',)):
             for ai, att in enumerate(atts):
                 L = len(the_menu(arch, ctx.tier, ai))
                 for lo, hi in core.chunks(L, max(1, L // 150)):
